@@ -67,16 +67,19 @@ theorem insn_size_exact (pos : Nat → Nat) (a : Nat) (si : SInsn) : (si.encode 
 
 /-- `code_read_encode_partial`: reading any legal encoding of a method body (`Spec.CodeLayout.encode`: any instruction
 forms, any pool indices, switches at any alignment, exception table incl. `end_pc = code_length`, any number and order
-of `LineNumberTable` / `LocalVariableTable` / `LocalVariableTypeTable` / unknown attributes, a `StackMapTable` with
-every frame kind in compact or extended form) succeeds, consumes exactly the attribute body, and — once the opaque
+of `LineNumberTable` / `LocalVariableTable` / `LocalVariableTypeTable` / `RuntimeVisibleTypeAnnotations` /
+`RuntimeInvisibleTypeAnnotations` / unknown attributes, a `StackMapTable` with every frame kind in compact or extended
+form) succeeds, consumes exactly the attribute body, and — once the opaque
 label ids are read back as the positions of the instructions that carry them (`Code.resolve`) — delivers **exactly**
 the facts of the layout: same instructions, every branch target, switch target, exception range and handler, line
-entry, local-variable range and `Uninitialized` verification type pointing at the instruction it was encoded for;
+entry, local-variable range, `Uninitialized` verification type and type-annotation target (`localvar_target` ranges,
+`offset_target`, `type_argument_target`) pointing at the instruction it was encoded for;
 every stack-map frame attached to the instruction its accumulated `offset_delta` designates; line and local tables
-merged in file order; unknown attributes byte for byte; nothing else.
+merged in file order, type annotations concatenated per visibility in file order; unknown attributes byte for byte;
+nothing else.
 
-Partial: the attributes `StackMap` (CLDC), `RuntimeVisibleTypeAnnotations`, `RuntimeInvisibleTypeAnnotations` of `Code`
-are outside the proved fragment (they are modelled and covered by the correspondence run only).
+Partial: the attribute `StackMap` (CLDC) of `Code` is outside the proved fragment (it is modelled and covered by the
+correspondence run only).
 `hleg.refs` (fewer than 65535 label references) is the domain in which the reader's `u16` label counter cannot
 overflow. -/
 theorem code_read_encode_partial (p : Pool) (bsms : Option (List Bsm)) (c : CodeLayout) (hleg : c.Legal p bsms) (r : Bytes) :
@@ -91,15 +94,16 @@ theorem code_read_raw (p : Pool) (bsms : Option (List Bsm)) (c : CodeLayout) (hl
   readCode_encode p bsms c hleg r
 
 /-- non-vacuity of `code_read_encode_partial`: `goto L1; L1: return` with a handler range reaching the end of the code
-(`end_pc = code_length`), an unknown attribute and a `StackMapTable` whose frame mentions an uninitialized object is a
-legal layout -/
+(`end_pc = code_length`), an unknown attribute, a `StackMapTable` whose frame mentions an uninitialized object and a
+`RuntimeVisibleTypeAnnotations` with a local-variable range and an offset target is a legal layout -/
 def exampleCode : CodeLayout :=
   { maxStack := 1, maxLocals := 0,
     insns := [⟨.goto 1, .plain, 0, 0⟩, ⟨.simple 0xb1, .plain, 0, 0⟩],
     exceptions := [⟨0, 2, 1, 0, none⟩],
-    attrs := [.unknown 1 [70, 111, 111] [1, 2], .frames 2 [⟨1, false, .same1 (.uninit 0)⟩]] }
+    attrs := [.unknown 1 [70, 111, 111] [1, 2], .frames 2 [⟨1, false, .same1 (.uninit 0)⟩],
+      .typeAnnos 3 true [⟨.localVar 0x40 [(0, 2, 0)], [], .mk 4 [76, 65, 59] []⟩, ⟨.offset 0x44 1, [(3, 1)], .mk 4 [76, 65, 59] []⟩]] }
 
-def examplePool : Pool := poolTable [.utf8 [70, 111, 111], .utf8 sStackMapTable]
+def examplePool : Pool := poolTable [.utf8 [70, 111, 111], .utf8 sStackMapTable, .utf8 sRVTA, .utf8 [76, 65, 59]]
 
 example : exampleCode.Legal examplePool none := by
   refine ⟨⟨by decide, by decide, ?_⟩, by decide, by decide, by decide, ?_, by decide, ?_, by decide, by decide⟩
@@ -113,9 +117,15 @@ example : exampleCode.Legal examplePool none := by
     exact ⟨by decide, by decide, by decide, by decide, rfl⟩
   · intro a ha
     simp only [exampleCode, List.mem_cons, List.not_mem_nil, or_false] at ha
-    rcases ha with rfl | rfl
+    rcases ha with rfl | rfl | rfl
     · exact ⟨by decide, rfl, by decide, by decide⟩
     · exact ⟨by decide, rfl, by decide, ⟨by decide, trivial, (by decide : (0 : Nat) < 2), fun _ => by decide, trivial⟩, by decide⟩
+    · refine ⟨by decide, rfl, by decide, ?_, by decide⟩
+      intro a ha
+      simp only [List.mem_cons, List.not_mem_nil, or_false] at ha
+      rcases ha with rfl | rfl
+      · exact ⟨⟨Or.inl rfl, by decide, by simp [exampleCode]⟩, ⟨by decide, by simp⟩, by decide, rfl, by decide, trivial⟩
+      · exact ⟨⟨by decide, by decide, by decide⟩, ⟨by decide, by simp⟩, by decide, rfl, by decide, trivial⟩
 
 /-! ## modified UTF-8 (`jstring.rs`, `java_string`) -/
 
@@ -174,14 +184,15 @@ the methods whatever its position, unknown attributes byte for byte.
 Fragment (attributes covered by the theorem): class — `Deprecated Synthetic SourceFile SourceDebugExtension Signature
 InnerClasses EnclosingMethod NestHost NestMembers PermittedSubclasses BootstrapMethods RuntimeVisibleAnnotations
 RuntimeInvisibleAnnotations RuntimeVisibleTypeAnnotations RuntimeInvisibleTypeAnnotations Record` (components with
-`Signature`, annotations, type annotations, unknown attributes) `Module ModulePackages ModuleMainClass` + unknown; field — `Deprecated Synthetic ConstantValue Signature RuntimeVisibleAnnotations
-RuntimeInvisibleAnnotations` + unknown; method — `Deprecated Synthetic Code Exceptions Signature
+`Signature`, annotations, type annotations, unknown attributes) `Module ModulePackages ModuleMainClass` + unknown;
+field — `Deprecated Synthetic ConstantValue Signature Runtime(In)VisibleAnnotations Runtime(In)VisibleTypeAnnotations`
++ unknown; method — `Deprecated Synthetic Code Exceptions Signature
 Runtime(In)VisibleAnnotations Runtime(In)VisibleTypeAnnotations AnnotationDefault MethodParameters` + unknown; `Code` —
-`StackMapTable LineNumberTable LocalVariableTable LocalVariableTypeTable` + unknown, exception table.
+`StackMapTable LineNumberTable LocalVariableTable LocalVariableTypeTable Runtime(In)VisibleTypeAnnotations` + unknown,
+exception table.
 Annotation attributes may occur several times (their annotations are concatenated in file order).
-Outside the fragment (modelled, tied by the correspondence run and the oracles only): `StackMap` (CLDC),
-`Runtime(In)VisibleTypeAnnotations` inside `Code`, `Runtime(In)VisibleParameterAnnotations` (dropped by the reader, see
-the witness). -/
+Outside the fragment (modelled, tied by the correspondence run and the oracles only): `StackMap` (CLDC) inside `Code`,
+`Runtime(In)VisibleParameterAnnotations` (dropped by the reader, see the witness). -/
 theorem class_read_encode_partial (c : ClassLayout) (hleg : c.Legal) (facts : ClassFacts) (hfacts : c.facts = some facts)
     (r : Bytes) : ∃ raw, ClassRead.read (c.encode ++ r) = ok (raw, r) ∧ raw.resolve = some facts :=
   read_encode c hleg facts hfacts r
